@@ -12,6 +12,10 @@ CLAIMED = {
    technique="TLA+ module Versions.tla (Announce written as the code's scan; the property's clauses as invariants, TLC over all 14,400 configurations); real plugin binary alone and real Client/plugin pairs run on the case table; every observation judged by TLC (TraceVersions.tla)",
    text="TLC checks for every host set, plugin set, per-version wire protocol, gRPC factory and list/no-list combination over versions 0..3 that the code-shaped scan announces the highest common version (else the lowest), with that set's protocol, and that acceptance implies a version both sides have. The same cases are run on the real code: the plugin binary alone with raw PLUGIN_PROTOCOL_VERSIONS values (duplicates, unsorted, partly invalid, empty, absent) whose handshake line is parsed, and real Client/plugin pairs where NegotiatedVersion, the version tag of the stub the host built and the tag answered by the dispensed implementation in the plugin must all equal the highest common version, or Start must fail with the incompatible-version error and the process be gone. TLC judges each observation.",
    note="Versions range over 0..3; one plugin per set. Thorough enumerates all 225 set pairs (x3 random forms); quick all pairs with >= 2 common versions plus a sample."),
+ "C04": dict(cat="model_checking", design="§6 C04, §4.2",
+   technique="TLA+ Kill.tla (Kill's steps as actions, up to three concurrent callers, plugin shutdown behaviours, discrete time with maximal progress; invariants KillPost / GracefulRespected / MarkerIffGraceful / Bounded and liveness KillTerminates by TLC; the pre-fix variant without the kill lock must fail); real vplugin processes per behaviour x protocol x launch method x Kill pattern judged by TLC (TraceKill.tla)",
+   text="TLC explores all interleavings of up to three concurrent Kill calls against a plugin that exits promptly, after a delay inside the grace period, never, is frozen (close request blocking, then succeeding or failing) or is already dead, and checks that every Kill ends with the process dead, reaped and reported exited, that a plugin exiting inside the grace period is never force-killed, that the cleanup marker exists iff the exit was graceful, that each Kill returns within the model's bound and (liveness) always returns. Real processes: the vplugin binary with the same behaviours (SIGSTOP for frozen, a crash before Kill, a failed handshake, an RPC in flight), over net/rpc, gRPC and multiplexed gRPC, launched by command, custom runner or reattached, killed once, twice, from 2-4 goroutines, or through CleanupClients over several managed clients; per caller the latency, /proc state and Exited() at the moment it returns, the cleanup marker and panics are observed and judged by TLC against the model's bounds in milliseconds. A deviation is reported only if it reproduces when the case runs alone.",
+   note="Trusted: /proc as process table, SIGSTOP as 'frozen'. Frozen net/rpc plugins (bounded by the yamux keep-alive, ~40 s) only in the thorough tier."),
  "C05": dict(cat="model_checking", design="§6 C05, §4.2",
    technique="TLA+ Lifecycle.tla (FailedStartKills, KillPost, liveness FailedStartEndsProcess checked by TLC on every failing plan) + Handshake.tla for the rejected lines; call words from TLC's graph replayed on a real Client with a scripted runner and validated by TLC (TraceLifecycle.tla); real vplugin processes per failure cause x launch method judged by TLC (TraceStartFail.tla)",
    text="TLC checks on Lifecycle.tla, for each way the launch can fail, that the runner is told to kill before Start returns, that the process eventually ends and that a later Kill leaves no runner and no socket directory. All call words up to length 5 read off TLC's state graph are executed on the real Client with an in-memory runner and the recorded traces (result, launch count, kill count, directory presence after every call) must be behaviours of the model. Real processes: for handshake-line classes that Handshake!Decide rejects (taken from TLC's table: each field invalid in turn, disallowed protocol, bad certificate, unsupported multiplexing) and for silence, half a line, early exit and closed stdout, launched by command and by custom runner, the pid must be gone within 1 s of Start returning its error, Kill must return within 1 s, report exited and remove the runner's directory.",
